@@ -260,6 +260,15 @@ impl<C: Config, Q: Query> Snapshot<C, Q> {
             return CalleeCheckDecision::NoNeed;
         }
 
+        // The callee was registered but never observed: the read was cut
+        // short by the cycle signal (the edge is only kept for cycle detection
+        // and dirty propagation). There is no fingerprint to compare against,
+        // so a dirty edge of this kind means the query has to run again and
+        // probe the cycle anew.
+        if forward_edge_observation.0.contains_key(callee).not() {
+            return CalleeCheckDecision::Recompute;
+        }
+
         let kind = engine.get_query_kind(callee).await;
 
         // NOTE: if the callee is an input (explicitly set), it's impossible
